@@ -93,7 +93,7 @@ struct Ur {
 };
 #endif
 
-constexpr int kMaxItems = 64, kMaxOps = 16;
+constexpr int kMaxItems = 64, kMaxOps = 320;
 
 template <class T>
 struct World {
@@ -105,6 +105,11 @@ struct World {
   bool readerOverWriteEnd = false;   // scenario "badfd"
   long wrOff = 0, rdOff = 0;         // stream positions: bytes accepted into / taken out of the pipe
   uint64_t seed = 1;
+  // burst scenarios: many reads outstanding on one descriptor; the kernel decides which read gets which byte, so the
+  // payload check is the multiset one: every byte delivered is a byte that was written and not yet delivered
+  bool multiset = false;
+  std::atomic<int> owed[256] = {};
+  std::atomic<int> runGo{1};          // 0: the I/O thread does not enter run() before the scenario says "go"
 
   struct Item { std::atomic<int> done{0}; HolderBase* holder = nullptr; std::function<void()> body; };
   Item items[kMaxItems];
@@ -148,7 +153,11 @@ struct World {
   void complete(int o, int ch, long n) noexcept {
     Op& q = ops[o];
     int ok = 1;
-    if (ch == 0 && q.kind == 0) {
+    if (ch == 0 && q.kind == 0 && multiset) {
+      if (n < 0 || n > q.len || q.buf == nullptr) ok = 0;
+      else for (long j = 0; j < n; ++j) if (owed[(uint8_t)(*q.buf)[(size_t)j]].fetch_sub(1) <= 0) ok = 0;
+      if (n > 0) rdOff += n;
+    } else if (ch == 0 && q.kind == 0) {
       if (n < 0 || n > q.len) ok = 0;
       else for (long j = 0; j < n; ++j) if ((uint8_t)(*q.buf)[j] != stream_byte(rdOff + j)) { ok = 0; break; }
       if (n > 0) rdOff += n;
@@ -189,6 +198,7 @@ struct World {
   long raw_write(long n) {
     std::vector<uint8_t> b((size_t)n);
     for (long j = 0; j < n; ++j) b[(size_t)j] = stream_byte(wrOff + j);
+    if (multiset) for (long j = 0; j < n; ++j) owed[b[(size_t)j]].fetch_add(1);
     vrt::ev("{\"e\":\"Feed\",\"i\":0,\"t\":0,\"k\":0,\"n\":%ld,\"p\":1,\"ok\":1}", n);
     iovec v{b.data(), (size_t)n};
     ssize_t m = T::nonblock ? ::writev(wfd, &v, 1) : ::pwritev2(wfd, &v, 1, -1, RWF_NOWAIT);
@@ -277,6 +287,8 @@ struct Runner {
       else w.request_stop(o);
     } else if (k == "wait") {
       w.wait_op(st[1].get<int>());
+    } else if (k == "go") {
+      w.runGo.store(1, std::memory_order_release);
     } else if (k == "probe") {
       w.on_io({});
     } else if (k == "sleep") {
@@ -361,6 +373,8 @@ struct Runner {
     std::fprintf(stderr, "@@X %ld\n", x);
     int fds0 = count_fds(), maps0 = count_uring_maps();
     w.seed = seed;
+    w.multiset = scn.value("multiset", 0) != 0;
+    w.runGo.store(scn.value("hold", 0) ? 0 : 1);
     w.ctx = std::make_unique<typename T::Ctx>();
     int fds1 = count_fds(), maps1 = count_uring_maps();
     bool during = kind == "rq" && scn["stop"].get<std::string>() == "during";
@@ -371,6 +385,7 @@ struct Runner {
       tl_onIo = true;
       for (int ph = 0; ph < phases; ++ph) {
         if (ph > 0) while (!phaseGo.load()) usleep(50);
+        while (!w.runGo.load(std::memory_order_acquire)) usleep(50);
         vrt::ev("{\"e\":\"RunStart\",\"i\":%d,\"t\":0,\"k\":0,\"n\":0,\"p\":0,\"ok\":1}", ph);
         w.ctx->run(stops[ph].get_token());
         vrt::ev("{\"e\":\"RunReturn\",\"i\":%d,\"t\":0,\"k\":0,\"n\":0,\"p\":0,\"ok\":1}", ph);
@@ -395,6 +410,7 @@ struct Runner {
       }
       w.writer = std::make_unique<typename T::Writer>(*w.ctx, fd[1]);
       for (auto& st : scn["steps"]) simple(st, false);
+      w.runGo.store(1, std::memory_order_release);
       for (int o = 1; o < kMaxOps; ++o) if (w.ops[o].started) w.wait_op(o);
       if (w.reader && !w.readerOverWriteEnd) w.raw_read(-1);
       if (w.readerOverWriteEnd) { ::close(fd[0]); }
